@@ -127,10 +127,19 @@ def _delay(when: dawgie.EVENT) -> datetime.timedelta:
     today = now.isoweekday() - 1
 
     if when.moment.boot is not None:
-        if when in booted:
+        # identify the event by what it runs: comparing EVENT tuples compares
+        # the algorithms through dawgie.Version.__eq__ (two algorithms of one
+        # package with equal version numbers would be "the same event") and the
+        # factory functions by identity (new objects after every reload)
+        key = (
+            dawgie.util.task_name(when.algref.factory),
+            when.algref.factory.__name__,
+            when.algref.impl.name(),
+        )
+        if key in booted:
             raise _DelayNotKnowableError()
 
-        booted.append(when)
+        booted.append(key)
     else:
         if when.moment.day is not None:
             then = datetime.datetime(
